@@ -296,7 +296,9 @@ def run_triples(acc, nt, tier):
                     acc.violation(["path", "convert", "not-invertible", nt], case, show(x), show(back))
             else:
                 tol = 4 * REL[nt] if nt == "float" else 1e-22
-                if abs(float(via) - float(direct)) > tol * abs(float(direct)) or abs(float(back) - float(x)) > tol * abs(float(x)):
+                # compare in the registry's own arithmetic: a Decimal tolerance of 1e-22 is far below float resolution
+                num = (lambda v: Decimal(v) if not isinstance(v, Fraction) else Decimal(v.numerator) / Decimal(v.denominator)) if nt == "Decimal" else float
+                if abs(num(via) - num(direct)) > num(tol) * abs(num(direct)) or abs(num(back) - num(x)) > num(tol) * abs(num(x)):
                     acc.violation(["path", "convert", "path-dependent-beyond-tolerance", nt], case, [show(direct), show(x)], [show(via), show(back)])
         acc.outcome(f"class-size={len(us)}")
     acc.sample({"clause": "path", "nt": nt, "triple": ["inch", "foot", "mile"], "checks": ["a->b->c == a->c", "a->b->a == identity"]})
